@@ -64,7 +64,7 @@ CHECKS = {
     text="Feeder, 1-4 posters, resize storm and a poller in four modes (eager, slow, absent until both queues are full and longer than the escape timeout, bursty) on a real screen; every delivered event is matched against the id-carrying input stream and the posters' return values; When() bounds; HasPending-then-Poll, also asked thousands of times while the main loop is held up by a redraw on a slow tty with undecodable/incomplete/plain input waiting (verdict: the poller goroutine found parked inside PollEvent); mouse reports with wheel, extra-button, modifier and motion codes; ChannelEvents order and closing.",
     note="Resize events excluded (dropped on a full queue by design); a history in which the feeder itself paused > 20 ms inside a sequence is inconclusive for decoding; histories sampled."),
  "C10": dict(level="exploration", design="3/C10", technique="Go race detector (-race, halt_on_error=0, log files) over all pairs of Screen methods run concurrently with the library's own goroutines, in worker processes; report parsing and de-duplication by outermost tcell entry points; write-block contiguity and well-formedness on the reference terminal",
-    text="Every unordered pair (incl. self-pairs) of 37 Screen methods on a terminfo screen and of 36 on a SimulationScreen, two goroutines in tight loops (quick 100, thorough 4000 iterations) on a styled 40x12 screen (one Sync > 4 KiB) with the input feeder, resize notifier and event drain running, plus seeded sets of 3-5 methods; any DATA RACE report with a tcell frame, any panic or runtime fatal error, any write block ending inside a sequence, malformed output, or the writes of one Show/Sync interleaved with a write of another goroutine is a violation. A race report counts against tcell when the racing access of both stacks is tcell's.",
+    text="Every unordered pair (incl. self-pairs) of 37 Screen methods on a terminfo screen and of 36 on a SimulationScreen, two goroutines in tight loops (quick 100, thorough 4000 iterations; Show and Sync loops 500) on a styled 40x12 screen (one Sync > 4 KiB) with the input feeder, resize notifier and event drain running, plus seeded sets of 3-5 methods; any DATA RACE report with a tcell frame, any panic or runtime fatal error, any write block ending inside a sequence, malformed output, or the writes of one Show/Sync interleaved with a write of another goroutine is a violation. A race report counts against tcell when the racing access of both stacks is tcell's.",
     note="The detector sees only executed paths within its history window; lifecycle calls (Suspend/Resume, Fini) are not paired with each other; PollEvent and ChannelEvents never together."),
 }
 PENDING = {}
